@@ -44,6 +44,11 @@ chk("C07", "exploration",
     "trusts refcar's scan; for an absent identity CID under StoreIdentityCIDs a size answer and a not-found answer of GetSize are both accepted",
     "runtime monitoring: reference-scan oracle over public read API results, cross-API agreement", "DESIGN.md §6 C07")
 
+chk("C15", "exploration",
+    "Runtime monitor: seeded DAGs (dag-cbor/dag-json/dag-pb/raw, repeated links, shared subtrees, identity links, depth 1-6) x selectors (explore-all, depth-limited, field paths) x options (AllowDuplicatePuts, link budget, paddings, index codec / none, TraverseLinksOnlyOnce) through six writer paths (v2 NewSelectiveWriter.WriteTo, TraverseV1, TraverseToFile; root SelectiveCar.Write, Prepare+Dump, WriteCar); a recording link system / store logs every load at the API boundary; output decoded by the reference must equal the distinct loads in first-visit order, announced sizes (DataSize, Prepare().Size(), returned counts) must equal bytes written, Dump == Write, every block callback's [Offset, Offset+Size) must be that section, CARv2 container fields and index are checked against the reference.",
+    "trusts refcar; callbacks' Offset/Size semantics (section start, whole section) taken from the code since the API does not document them; merkledag.WalkOptions such as SkipRoot are outside the property's quantifier and not generated",
+    "runtime monitoring: recorded load log at the link-system boundary vs reference-decoded output bytes and announced sizes", "DESIGN.md §6 C15")
+
 NOT_YET = {}
 
 def main():
